@@ -1,0 +1,109 @@
+//go:build verif
+
+package mq
+
+// Contracts for govc (contract-based deductive verification, see /verif/DESIGN.md).
+// Comments only; compiled only with the build tag `verif`.
+
+//@ arith int
+//@ property C12 C13
+//@ assumption the package-level error values ErrClosed / ErrCtrlQFull / ErrReqQFull / ErrSync are the distinct non-nil values created by errors.New at init
+//
+// Two ranked sets (container/list extern model): control messages and requests. Content, `closed`, `cleared` and
+// the condition variable's ghost counters are protected by `lock`.
+//@ guarded MQ.closed by MQ.lock
+//@ guarded MQ.cleared by MQ.lock
+//@ cond MQ.cond uses MQ.lock
+//@ monitor MQ.lock
+//@   havoc self.ctrlList.lmem, self.ctrlList.lcnt, self.reqList.lmem, self.reqList.lcnt, list.Element.lrk, list.Element.Value, region($chanclosed), region($alloc)
+//@   invariant #shape self.ctrlList != nil && self.reqList != nil && self.ctrlList != self.reqList && lwf(self.ctrlList) && lwf(self.reqList) && sleepers(self.cond) >= 0 && woken(self.cond) >= 0
+//@   invariant #allocated (forall e *list.Element :: { self.ctrlList.lmem[e] } self.ctrlList.lmem[e] ==> allocated(e)) && (forall e *list.Element :: { self.reqList.lmem[e] } self.reqList.lmem[e] ==> allocated(e))
+//@   invariant #chans self.stopChan != nil && self.clearChan != nil && self.stopChan != self.clearChan && (!self.closed ==> !chanclosed(self.stopChan)) && (!self.cleared ==> !chanclosed(self.clearChan))
+//@   invariant #sleeponlyifempty sleepers(self.cond) > 0 ==> self.ctrlList.lcnt == 0 && self.reqList.lcnt == 0 && !self.closed
+//@   invariant #clearedisclosed self.cleared ==> self.closed && self.ctrlList.lcnt == 0 && self.reqList.lcnt == 0
+//
+//@ pure errsOK() bool = ErrClosed != nil && ErrCtrlQFull != nil && ErrReqQFull != nil && ErrSync != nil && ErrClosed != ErrCtrlQFull && ErrClosed != ErrReqQFull && ErrClosed != ErrSync && ErrCtrlQFull != ErrSync && ErrReqQFull != ErrSync && ErrCtrlQFull != ErrReqQFull
+//@ pure mqok(a *MQ) bool = a != nil && !held(a.lock) && a.ctrlList != nil && a.reqList != nil && errsOK()
+//@ pure same(l *list.List) bool = l.lcnt == cs(l.lcnt) && l.lmem == cs(l.lmem) && (forall e *list.Element :: { e.lrk } cs(l.lmem[e]) ==> e.lrk == cs(e.lrk)) && (forall e *list.Element :: { e.Value } cs(l.lmem[e]) ==> e.Value == cs(e.Value))
+//@ pure kept(l *list.List) bool = (forall e *list.Element :: { e.lrk } cs(l.lmem[e]) ==> e.lrk == cs(e.lrk)) && (forall e *list.Element :: { e.Value } cs(l.lmem[e]) ==> e.Value == cs(e.Value))
+//@ pure atback(l *list.List, v interface{}) bool = forall e *list.Element :: { l.lmem[e] } l.lmem[e] ==> (cs(l.lmem[e]) || (e.Value == v && forall x *list.Element :: { cs(l.lmem[x]) } cs(l.lmem[x]) ==> x.lrk < e.lrk))
+//@ pure atfront(l *list.List, v interface{}) bool = forall e *list.Element :: { l.lmem[e] } l.lmem[e] ==> (cs(l.lmem[e]) || (e.Value == v && forall x *list.Element :: { cs(l.lmem[x]) } cs(l.lmem[x]) ==> e.lrk < x.lrk))
+//@ pure nolost(l *list.List) bool = forall e *list.Element :: { cs(l.lmem[e]) } cs(l.lmem[e]) ==> l.lmem[e]
+//@ pure tookfront(l *list.List, v interface{}) bool = l.lcnt == cs(l.lcnt) - 1 && kept(l) && forall e *list.Element :: { cs(l.lmem[e]) } cs(l.lmem[e]) && (forall x *list.Element :: { cs(l.lmem[x]) } cs(l.lmem[x]) ==> cs(e.lrk) <= cs(x.lrk)) ==> v == cs(e.Value) && l.lmem == store(cs(l.lmem), e, false)
+//
+//@ func MQ.AddCtrl
+//@   requires mqok(a)
+//@   ensures #closed cs(a.closed) ==> result == ErrClosed && same(a.ctrlList)
+//@   ensures #full !cs(a.closed) && a.ctrlMaxNum > 0 && cs(a.ctrlList.lcnt) >= a.ctrlMaxNum ==> result == ErrCtrlQFull && same(a.ctrlList)
+//@   ensures #added !cs(a.closed) && !(a.ctrlMaxNum > 0 && cs(a.ctrlList.lcnt) >= a.ctrlMaxNum) ==> result == nil && a.ctrlList.lcnt == cs(a.ctrlList.lcnt) + 1 && kept(a.ctrlList)
+//@   ensures #atback result == nil ==> atback(a.ctrlList, cmd)
+//@   ensures #nolost nolost(a.ctrlList) && same(a.reqList) && a.closed == cs(a.closed)
+//@   modifies MQ.closed, MQ.cleared, a.ctrlList.lmem, a.ctrlList.lcnt, a.reqList.lmem, a.reqList.lcnt, list.Element.lrk, list.Element.Value, region($chanclosed), region($alloc)
+//@ func MQ.AddPriorCtrl
+//@   requires mqok(a)
+//@   ensures #closed cs(a.closed) ==> result == ErrClosed && same(a.ctrlList)
+//@   ensures #added !cs(a.closed) ==> result == nil && a.ctrlList.lcnt == cs(a.ctrlList.lcnt) + 1 && kept(a.ctrlList)
+//@   ensures #atfront result == nil ==> atfront(a.ctrlList, cmd)
+//@   ensures #nolost nolost(a.ctrlList) && same(a.reqList) && a.closed == cs(a.closed)
+//@   modifies MQ.closed, MQ.cleared, a.ctrlList.lmem, a.ctrlList.lcnt, a.reqList.lmem, a.reqList.lcnt, list.Element.lrk, list.Element.Value, region($chanclosed), region($alloc)
+//@ func MQ.AddReq
+//@   requires mqok(a)
+//@   ensures #closed cs(a.closed) ==> result == ErrClosed && same(a.reqList)
+//@   ensures #full !cs(a.closed) && a.reqMaxNum > 0 && cs(a.reqList.lcnt) >= a.reqMaxNum ==> result == ErrReqQFull && same(a.reqList)
+//@   ensures #added !cs(a.closed) && !(a.reqMaxNum > 0 && cs(a.reqList.lcnt) >= a.reqMaxNum) ==> result == nil && a.reqList.lcnt == cs(a.reqList.lcnt) + 1 && kept(a.reqList)
+//@   ensures #atback result == nil ==> atback(a.reqList, req)
+//@   ensures #nolost nolost(a.reqList) && same(a.ctrlList) && a.closed == cs(a.closed)
+//@   modifies MQ.closed, MQ.cleared, a.ctrlList.lmem, a.ctrlList.lcnt, a.reqList.lmem, a.reqList.lcnt, list.Element.lrk, list.Element.Value, region($chanclosed), region($alloc)
+//@ func MQ.AddPriorReq
+//@   requires mqok(a)
+//@   ensures #closed cs(a.closed) ==> result == ErrClosed && same(a.reqList)
+//@   ensures #added !cs(a.closed) ==> result == nil && a.reqList.lcnt == cs(a.reqList.lcnt) + 1 && kept(a.reqList)
+//@   ensures #atfront result == nil ==> atfront(a.reqList, req)
+//@   ensures #nolost nolost(a.reqList) && same(a.ctrlList) && a.closed == cs(a.closed)
+//@   modifies MQ.closed, MQ.cleared, a.ctrlList.lmem, a.ctrlList.lcnt, a.reqList.lmem, a.reqList.lcnt, list.Element.lrk, list.Element.Value, region($chanclosed), region($alloc)
+//
+//@ func MQ.Pop
+//@   requires mqok(a)
+//@   ensures #closed cs(a.closed) ==> result0 == nil && result1 == ErrClosed && same(a.ctrlList) && same(a.reqList)
+//@   ensures #ctrlfirst !cs(a.closed) && cs(a.ctrlList.lcnt) > 0 ==> result1 == nil && tookfront(a.ctrlList, result0) && same(a.reqList)
+//@   ensures #thenreq !cs(a.closed) && cs(a.ctrlList.lcnt) == 0 ==> result1 == nil && tookfront(a.reqList, result0) && same(a.ctrlList) && cs(a.reqList.lcnt) > 0
+//@   ensures #nosyncerr result1 != ErrSync
+//@   modifies MQ.closed, MQ.cleared, a.ctrlList.lmem, a.ctrlList.lcnt, a.reqList.lmem, a.reqList.lcnt, list.Element.lrk, list.Element.Value, region($chanclosed), region($alloc)
+//@   loop 1
+//@     invariant wheld(a.lock) && a.ctrlList != nil && a.reqList != nil && a.ctrlList != a.reqList && lwf(a.ctrlList) && lwf(a.reqList) && sleepers(a.cond) >= 0 && woken(a.cond) >= 0 && (sleepers(a.cond) > 0 ==> a.ctrlList.lcnt == 0 && a.reqList.lcnt == 0 && !a.closed)
+//@     invariant a.stopChan != nil && a.clearChan != nil && a.stopChan != a.clearChan && (!a.closed ==> !chanclosed(a.stopChan)) && (!a.cleared ==> !chanclosed(a.clearChan)) && (a.cleared ==> a.closed && a.ctrlList.lcnt == 0 && a.reqList.lcnt == 0)
+//@     invariant same(a.ctrlList) && same(a.reqList) && a.closed == cs(a.closed) && (forall e *list.Element :: { a.ctrlList.lmem[e] } a.ctrlList.lmem[e] ==> allocated(e)) && (forall e *list.Element :: { a.reqList.lmem[e] } a.reqList.lmem[e] ==> allocated(e))
+//@ func MQ.PopAnyway
+//@   requires mqok(a)
+//@   ensures #emptyclosed cs(a.ctrlList.lcnt) == 0 && cs(a.reqList.lcnt) == 0 ==> result0 == nil && result1 == ErrClosed && cs(a.closed) && same(a.ctrlList) && same(a.reqList)
+//@   ensures #ctrlfirst cs(a.ctrlList.lcnt) > 0 ==> result1 == nil && tookfront(a.ctrlList, result0) && same(a.reqList)
+//@   ensures #thenreq cs(a.ctrlList.lcnt) == 0 && cs(a.reqList.lcnt) > 0 ==> result1 == nil && tookfront(a.reqList, result0) && same(a.ctrlList)
+//@   ensures #nosyncerr result1 != ErrSync
+//@   modifies MQ.closed, MQ.cleared, a.ctrlList.lmem, a.ctrlList.lcnt, a.reqList.lmem, a.reqList.lcnt, list.Element.lrk, list.Element.Value, region($chanclosed), region($alloc)
+//@   loop 1
+//@     invariant wheld(a.lock) && a.ctrlList != nil && a.reqList != nil && a.ctrlList != a.reqList && lwf(a.ctrlList) && lwf(a.reqList) && sleepers(a.cond) >= 0 && woken(a.cond) >= 0 && (sleepers(a.cond) > 0 ==> a.ctrlList.lcnt == 0 && a.reqList.lcnt == 0 && !a.closed)
+//@     invariant a.stopChan != nil && a.clearChan != nil && a.stopChan != a.clearChan && (!a.closed ==> !chanclosed(a.stopChan)) && (!a.cleared ==> !chanclosed(a.clearChan)) && (a.cleared ==> a.closed && a.ctrlList.lcnt == 0 && a.reqList.lcnt == 0)
+//@     invariant same(a.ctrlList) && same(a.reqList) && a.closed == cs(a.closed) && (forall e *list.Element :: { a.ctrlList.lmem[e] } a.ctrlList.lmem[e] ==> allocated(e)) && (forall e *list.Element :: { a.reqList.lmem[e] } a.reqList.lmem[e] ==> allocated(e))
+//
+//@ func MQ.Close
+//@   requires mqok(a)
+//@   ensures #closed a.closed && same(a.ctrlList) && same(a.reqList)
+//@   modifies MQ.closed, MQ.cleared, a.ctrlList.lmem, a.ctrlList.lcnt, a.reqList.lmem, a.reqList.lcnt, list.Element.lrk, list.Element.Value, region($chanclosed), region($alloc)
+//@ func MQ.TryClose
+//@   requires mqok(a)
+//@   ensures #iffempty result <==> (cs(a.closed) || (cs(a.ctrlList.lcnt) == 0 && cs(a.reqList.lcnt) == 0))
+//@   ensures #state a.closed == result && same(a.ctrlList) && same(a.reqList)
+//@   modifies MQ.closed, MQ.cleared, a.ctrlList.lmem, a.ctrlList.lcnt, a.reqList.lmem, a.reqList.lcnt, list.Element.lrk, list.Element.Value, region($chanclosed), region($alloc)
+//@ func MQ.TryClear
+//@   requires mqok(a)
+//@   ensures #iffclosedempty result <==> (cs(a.cleared) || (cs(a.closed) && cs(a.ctrlList.lcnt) == 0 && cs(a.reqList.lcnt) == 0))
+//@   ensures #state a.cleared == result && a.closed == cs(a.closed) && same(a.ctrlList) && same(a.reqList)
+//@   modifies MQ.closed, MQ.cleared, a.ctrlList.lmem, a.ctrlList.lcnt, a.reqList.lmem, a.reqList.lcnt, list.Element.lrk, list.Element.Value, region($chanclosed), region($alloc)
+//@ func MQ.IsClosed
+//@   requires mqok(a)
+//@   ensures result == cs(a.closed) && a.closed == cs(a.closed)
+//@   modifies MQ.closed, MQ.cleared, a.ctrlList.lmem, a.ctrlList.lcnt, a.reqList.lmem, a.reqList.lcnt, list.Element.lrk, list.Element.Value, region($chanclosed), region($alloc)
+//@ func MQ.IsCleared
+//@   requires mqok(a)
+//@   ensures result == cs(a.cleared) && a.cleared == cs(a.cleared)
+//@   modifies MQ.closed, MQ.cleared, a.ctrlList.lmem, a.ctrlList.lcnt, a.reqList.lmem, a.reqList.lcnt, list.Element.lrk, list.Element.Value, region($chanclosed), region($alloc)
